@@ -82,7 +82,7 @@ func genIncr(r *rng.R, t *trace.Trace, steer bool) {
 			s = append(s, trace.Op{Op: "bt_stats"})
 		case 5:
 			// interval = k*1024+1 ns of fake time: never on a harness wake-up instant
-			s = append(s, trace.Op{Op: "bt_enable_incremental", Incr: &trace.IncrCfg{BudgetNs: int64(rng.Pick(r, []int{1, 1000, 1000000})), IntervalNs: int64(r.Range(1, 8))*1024 + 1}})
+			s = append(s, trace.Op{Op: "bt_enable_incremental", Incr: &trace.IncrCfg{BudgetNs: int64(rng.Pick(r, []int{1, 1000, 1000000})), IntervalNs: int64(rng.Pick(r, []int{1, 2, 3, 5, 8, 16, 32}))*1024 + 1}})
 			enabled = true
 		case 6:
 			s = append(s, trace.Op{Op: "bt_stop_incremental", N: rng.Pick(r, []int{1, 1, 2})})
@@ -122,13 +122,21 @@ func genSmart(r *rng.R, t *trace.Trace, steer bool) {
 	// [3]: the file size the adapter reports (constant during the run): above
 	// 500 MB the rule-based strategy selects the incremental mode, so the monitor
 	// really starts and stops the background rebalancer
-	t.Config.Extra = []string{fmt.Sprint(int64(r.Range(2, 12))*1024 + 33), fmt.Sprint(rng.Pick(r, []float64{0, 0.5, 0.7})), fmt.Sprint(rng.Pick(r, []int64{0, 2048, 1 << 20})),
+	t.Config.Extra = []string{fmt.Sprint(int64(rng.Pick(r, []int{2, 3, 5, 8, 12, 20, 40}))*1024 + 33), fmt.Sprint(rng.Pick(r, []float64{0, 0.5, 0.7})), fmt.Sprint(rng.Pick(r, []int64{0, 2048, 1 << 20})),
 		fmt.Sprint(rng.Pick(r, []int64{1 << 20, 600 << 20, 600 << 20, 2 << 30}))}
+	// In half of the traces only task 0 calls Start/Stop: then the monitor
+	// goroutine may sleep at its yield points (see bubbleBody), which is what lets
+	// a Stop arrive in the middle of a monitor tick.
+	singleOwner := r.Chance(0.5)
 	for i := 0; i < nt; i++ {
 		var s []trace.Op
 		n := r.Range(3, 25)
 		for k := 0; k < n; k++ {
-			switch r.Weighted([]int{40, 12, 10, 8, 8, 8, 6}) {
+			w := []int{40, 12, 10, 8, 8, 8, 6}
+			if singleOwner && i > 0 {
+				w[4], w[5] = 0, 0
+			}
+			switch r.Weighted(w) {
 			case 0:
 				s = append(s, trace.Op{Op: "sr_record", N: r.Intn(3), Val: rng.Pick(r, []uint64{1 << 10, 200 << 20, 2 << 30})})
 			case 1:
@@ -883,9 +891,23 @@ func execC18(t *trace.Trace, dir string) *harness.RunResult {
 		res.Interleaving = bo.s.interleavingHash()
 		res.NonTrivial = bo.s.interleaved(nfg)
 		res.IOSteps = bo.s.steps
+		inTick, stopInTick := false, false
 		for _, ev := range bo.s.log {
 			if strings.HasSuffix(ev.site, ".tick") {
 				res.Probes["background-tick"]++
+			}
+			if t.Config.Mode == "smart" {
+				switch {
+				case ev.site == "incr.loop.entry":
+					res.Probes["smart:monitor-or-caller-started-incremental-loop"]++
+				case ev.site == "smart.loop.tick":
+					inTick, stopInTick = true, false
+				case ev.site == "smart.Stop.entry" && inTick:
+					stopInTick = true
+				case ev.site == "smart.loop.beforeApply" && stopInTick:
+					res.Probes["smart:stop-arrived-during-a-tick-that-applies-a-decision"]++
+					stopInTick = false
+				}
 			}
 		}
 	}
